@@ -97,6 +97,17 @@ def showSess (s : Sess) : String := s!"rx[{showTable s.rx}]tx[{showTable s.tx}]"
 
 def S := concreteSuite
 
+/-- SRTCP as an RFC 3711 / RFC 7714 sender with a free E flag and index would produce it
+(`E = 0`: payload in clear, still authenticated; the NULL cipher is the identity either way) -/
+def extRtcp (c : Ctx) (pkt : Bytes) (index : Nat) (e : Bool) : Bytes :=
+  let idx := index % 2147483648
+  let word := idx + (if e then 2147483648 else 0)
+  if c.profile = .gcm then
+    pkt.take 8 ++ S.aeadSeal c.rtcp.ck (gcmRtcpNonce c.rtcp.salt c.ssrc idx) (pkt.take 8 ++ be32 word) (pkt.drop 8) ++ be32 word
+  else
+    let enc := if e ∧ c.encrypts ∧ pkt.length > 8 then rtcpCipher S c idx pkt else pkt
+    enc ++ be32 word ++ rtcpTag S c (enc ++ be32 word)
+
 def showRtpResult : Except (ParseErr ⊕ Err) Pkt → String
   | .ok p => "ok:" ++ showBytes p.marshal
   | .error (.inl e) => showParseErr e
@@ -148,6 +159,59 @@ def step (w : World) (tok : String) : Option (World × String) :=
     let raw ← inputBytes w src
     let (r, s') := s.unprotectRtcp S w.now raw
     some ({ w with sess := w.sess.set! i s' }, showBytesResult r)
+  | "xr" :: si :: roc :: rest => do
+    -- an independent sender with session `si`'s transmit keys, at rollover count `roc`
+    let s ← w.sess[← si.toNat?]?
+    let roc ← roc.toNat?
+    let p ← parsePkt rest
+    match Ctx.new S p.hdr.ssrc s.profile s.txMk s.txMs 0 with
+    | .error e => some ({ w with slots := w.slots.push [] }, showErr e)
+    | .ok c =>
+      match ({ c with roc := roc, last := some p.hdr.seq } : Ctx).protectRtp S p with
+      | (.ok b, _) => some ({ w with slots := w.slots.push b }, showBytes b)
+      | (.error e, _) => some ({ w with slots := w.slots.push [] }, showErr e)
+  | ["xp", si, roc, hx] => do
+    -- raw plaintext RTP (the P bit may disagree with the padding), independent sender at `roc`
+    let s ← w.sess[← si.toNat?]?
+    let roc ← roc.toNat?
+    let plain ← unhex hx
+    match parseHdr plain with
+    | .error _ => some ({ w with slots := w.slots.push [] }, showErr .internal)
+    | .ok (h, p, body) =>
+      match Ctx.new S h.ssrc s.profile s.txMk s.txMs 0 with
+      | .error _ => some ({ w with slots := w.slots.push [] }, showErr .internal)
+      | .ok c =>
+        let hb := writeHdr h p
+        let b := if c.profile = Profile.gcm then hb ++ S.aeadSeal c.rtp.ck (gcmNonce c.rtp.salt c.ssrc h.seq roc) hb body
+          else hb ++ cmBody S c h.seq roc body ++ rtpTag S c hb (cmBody S c h.seq roc body) roc
+        some ({ w with slots := w.slots.push b }, showBytes b)
+  | ["xc", si, e, idx, hx] => do
+    let s ← w.sess[← si.toNat?]?
+    let idx ← idx.toNat?
+    let pkt ← unhex hx
+    if pkt.length < 8 then some ({ w with slots := w.slots.push [] }, showErr .tooShort) else
+    match Ctx.new S (ssrcOfRtcp pkt) s.profile s.txMk s.txMs 0 with
+    | .error er => some ({ w with slots := w.slots.push [] }, showErr er)
+    | .ok c =>
+      let b := extRtcp c pkt idx (e = "1")
+      some ({ w with slots := w.slots.push b }, showBytes b)
+  | ["st", si, dir, ssrc, roc, last, idx] => do
+    let i ← si.toNat?
+    let s ← w.sess[i]?
+    let ssrc ← ssrc.toNat?
+    let roc ← roc.toNat?
+    let idx ← idx.toNat?
+    let last ← (if last = "-" then some none else last.toNat?.map some)
+    let upd (t : List Ctx) : List Ctx × Bool :=
+      match lookup t ssrc with
+      | some c => (replace t { c with roc := roc, last := last, rtcpIndex := idx }, true)
+      | none => (t, false)
+    if dir = "t" then
+      let (t, ok) := upd s.tx
+      some ({ w with sess := w.sess.set! i { s with tx := t } }, b01 ok)
+    else
+      let (t, ok) := upd s.rx
+      some ({ w with sess := w.sess.set! i { s with rx := t } }, b01 ok)
   | ["sn", si] => do
     let s ← w.sess[← si.toNat?]?
     some (w, showSess s)
